@@ -1194,7 +1194,7 @@ get_index_of_member_type (GIrNodeInterface *node,
                           GIrNodeTypeId type,
                           const char *name)
 {
-  guint index = -1;
+  int index = -1;
   GList *l;
 
   for (l = node->members; l; l = l->next)
@@ -1207,10 +1207,10 @@ get_index_of_member_type (GIrNodeInterface *node,
       index++;
 
       if (strcmp (member_node->name, name) == 0)
-        break;
+        return index;
     }
 
-  return index;
+  return -1;
 }
 
 static void
